@@ -3,8 +3,8 @@ import itertools
 from .lib import *
 
 RULE = ("exhaustive product (both tiers): request version {1.0,1.1} x request Connection {absent, close, keep-alive, [keep-alive, close], [close, keep-alive]} x "
-        "handshake {GET, POST, POST+Expect continued, POST+Expect given up, POST+Expect refused bare, POST+Expect refused with fields, "
-        "POST+Expect answered by an interim 102} x response version {1.0,1.1} x status {200, 302, 404} x framing {length 0, length 3, "
+        "(plus statuses 205 and 300 on a reduced product) x handshake {GET, POST, POST+Expect continued, POST+Expect given up, POST+Expect refused bare, POST+Expect refused with fields, "
+        "POST+Expect answered by an interim 102} x response version {1.0,1.1} x status {200, 302, 404; 205 and 300 on a reduced product} x framing {length 0, length 3, "
         "chunked, close-delimited, close-delimited with Transfer-Encoding: gzip}; plus 3xx heads returned before they are complete "
         "(message boundary lost) x response "
         "Connection {absent, close, keep-alive, [keep-alive, close], [close, keep-alive]}; close-delimited bodies also abandoned without a read; every flow is driven to Cleanup and, for 302, also inspected in "
@@ -100,6 +100,9 @@ def generate(rng, tier, mult):
         rv, rconn, hs, sv, status, framing, sconn = combo
         if framing in ("close", "close-te") or (framing == "chunked" and sv == "1.0"):
             out.append(build(*combo, skip_read=True))
+    # further statuses on a reduced product: 205 (a body unless framed otherwise), 300 (a redirect, here without a Location field)
+    for combo in itertools.product(["1.0", "1.1"], ["absent", "close"], ["get", "post"], ["1.0", "1.1"], [205, 300], FRAMING, ["absent", "close", "keep-alive"]):
+        out.append(build(*combo))
     # message boundary lost: a 3xx head with Location that is not complete yet is returned as a response (known finding F10 of C05);
     # whatever Connection field it carries, the connection must not be offered for reuse
     for sconn in REQ_CONN:
@@ -141,9 +144,10 @@ def oracle(script, obs):
     if hs in ("expect-refused", "expect-refused-fields", "expect-refused-1xx"):
         facts.add("n100")
     has_body = not (100 <= st <= 199 or st in (204, 304))
+    is_redir = 300 <= st <= 399 and st != 304
     method = "GET" if hs == "get" else "POST"
     # close-delimited body: no framing header, and the rules give a body (not 302-without-framing)
-    if framing == "close" and st != 302 and has_body:
+    if framing == "close" and not is_redir and has_body:
         facts.add("cdl")
     if framing == "close-te" and has_body:
         facts.add("cdl")       # a Transfer-Encoding field is a framing header: also a 3xx is then close-delimited
@@ -156,8 +160,8 @@ def oracle(script, obs):
     seen_states = [o for o in obs if o.startswith("state ")]
     if "state Cleanup" not in seen_states:
         return ["%s: flow did not reach Cleanup: %s" % (combo, seen_states[-2:])]
-    if st == 302 and "state Redirect" not in seen_states:
-        return ["%s: 302 did not pass through Redirect" % combo]
+    if is_redir and "state Redirect" not in seen_states:
+        return ["%s: %d did not pass through Redirect" % (combo, st)]
     fails = []
     for i, (op, o) in enumerate(zip(ops, obs)):
         if op == "q_must_close" and o in ("true", "false"):
